@@ -100,7 +100,7 @@ ParseEnd(w) ==
   /\ Rest /\ UNCHANGED coin
 
 \* ---- do_retrieve ----
-RetrBegin(w) == /\ Running(w, "retrieve") /\ DRetrBegin(w)
+RetrBegin(w) == /\ Running(w, "retrieve") /\ \E rb \in MinRetrs(retrQ) : DRetrBegin(w, rb)
                 /\ Unlock(Goto(w, "r_retrieving")) /\ Rest /\ UNCHANGED <<nparsed, coin>>
 RetrEnd(w) ==
   /\ At(w, "r_end")
